@@ -1,42 +1,43 @@
-//! ENVIRONMENT MODEL of the part of `tokio::sync::watch` used by driver/streams/settings.rs: a single-threaded
-//! shared cell (last value wins). No wake-ups, no scheduling: only the stored value is observable.
+//! ENVIRONMENT MODEL of the part of `tokio::sync::watch` used by driver/streams/settings.rs: the sender owns a cell
+//! holding the last value (what `Sender::borrow` / `send_replace` observe). Receivers are NOT modelled (no wake-ups,
+//! no scheduling): `RemoteSettingsWatcher` is outside every claim. No reference counting, no allocation.
 pub mod sync {
     pub mod watch {
         use std::cell::{Ref, RefCell};
-        use std::rc::Rc;
+        use std::marker::PhantomData;
 
         pub struct Sender<T> {
-            shared: Rc<RefCell<T>>,
+            value: RefCell<T>,
         }
         pub struct Receiver<T> {
-            shared: Rc<RefCell<T>>,
+            _detached: PhantomData<T>,
         }
         #[derive(Debug)]
         pub struct RecvError;
 
         pub fn channel<T>(init: T) -> (Sender<T>, Receiver<T>) {
-            let shared = Rc::new(RefCell::new(init));
-            (Sender { shared: shared.clone() }, Receiver { shared })
+            (Sender { value: RefCell::new(init) }, Receiver { _detached: PhantomData })
         }
 
         impl<T> Sender<T> {
             pub fn borrow(&self) -> Ref<'_, T> {
-                self.shared.borrow()
+                self.value.borrow()
             }
             pub fn send_replace(&self, value: T) -> T {
-                self.shared.replace(value)
+                self.value.replace(value)
             }
             pub fn subscribe(&self) -> Receiver<T> {
-                Receiver { shared: self.shared.clone() }
+                Receiver { _detached: PhantomData }
             }
         }
 
         impl<T> Receiver<T> {
+            /// not modelled: a detached receiver never observes a change
             pub async fn changed(&mut self) -> Result<(), RecvError> {
-                Ok(())
+                Err(RecvError)
             }
             pub fn borrow(&self) -> Ref<'_, T> {
-                self.shared.borrow()
+                unreachable!("model receivers are detached")
             }
         }
     }
